@@ -524,79 +524,151 @@ Example ex_keepalive_under_caller_ctx :
 Proof. vm_compute. split; reflexivity. Qed.
 
 (* ---------- the PINGRESP slot ---------- *)
-Lemma slot_run_app st a b :
-  slot_run st (a ++ b) = slot_run st a ++ slot_run (fold_left (fun s e => fst (slot_step s e)) a st) b.
+Definition slot_after (st : slot_st) (es : list slot_ev) : slot_st :=
+  fold_left (fun s e => fst (slot_step s e)) es st.
+
+Lemma slot_run_app st a b : slot_run st (a ++ b) = slot_run st a ++ slot_run (slot_after st a) b.
 Proof.
-  revert st; induction a as [|e a IH]; intros st; cbn [app slot_run fold_left]; [reflexivity|].
+  unfold slot_after. revert st; induction a as [|e a IH]; intros st; cbn [app slot_run fold_left]; [reflexivity|].
   destruct (slot_step st e) as [st' out] eqn:E. cbn [fst]. rewrite IH, app_assoc. reflexivity.
 Qed.
 
+Lemma slot_after_app st a b : slot_after st (a ++ b) = slot_after (slot_after st a) b.
+Proof. unfold slot_after. apply fold_left_app. Qed.
+
 (* PINGRESPs that arrive while no Ping waits produce nothing and leave nobody waiting *)
 Lemma slot_idle_resps u : forall st, sl_wait st = false ->
-  slot_run st (repeat SResp u) = [] /\
-  sl_wait (fold_left (fun s e => fst (slot_step s e)) (repeat SResp u) st) = false.
+  slot_run st (repeat SResp u) = [] /\ sl_wait (slot_after st (repeat SResp u)) = false.
 Proof.
+  unfold slot_after.
   induction u as [|u IH]; intros st Hw; cbn [repeat slot_run fold_left]; [split; [reflexivity | exact Hw]|].
   unfold slot_step at 1 3. destruct (sl_chan st) as [[|]|]; cbn [fst app]; try (apply IH; exact Hw).
   rewrite Hw. cbn [fst app]. apply IH. reflexivity.
 Qed.
 
-(* one ping: whatever the slot held before, the Ping is answered iff a PINGRESP arrives after
-   its PINGREQ, and afterwards nobody waits *)
-Lemma slot_one_ping ur : forall st, sl_wait st = false ->
-  slot_run st (ping_events ur) = [match snd ur with O => SGaveUp | _ => SAnswered end] /\
-  sl_wait (fold_left (fun s e => fst (slot_step s e)) (ping_events ur) st) = false.
+(* ... and after the channel was installed, the first of them fills it *)
+Lemma slot_fill z : forall st, sl_chan st = Some false -> sl_wait st = false ->
+  slot_run st (repeat SResp z) = [] /\
+  slot_after st (repeat SResp z) = mk_slot (Some (negb (Nat.eqb z 0))) false.
 Proof.
-  destruct ur as [u r]. intros st Hw. unfold ping_events. cbn [snd].
+  destruct z as [|z]; intros [c w] Hc Hw; cbn [sl_chan sl_wait] in *; subst.
+  - cbn. split; reflexivity.
+  - cbn [repeat slot_run slot_step sl_chan sl_wait app]. unfold slot_after. cbn [fold_left slot_step sl_chan sl_wait fst].
+    split.
+    + apply (slot_idle_resps z (mk_slot (Some true) false) eq_refl).
+    + clear. induction z as [|z IH]; cbn [repeat fold_left slot_step sl_chan fst]; [reflexivity | exact IH].
+Qed.
+
+(* one ping: whatever the slot held before, the Ping is answered iff a PINGRESP is dispatched
+   after its PINGREQ was handed to the transport — before or after the Ping reaches its select *)
+Lemma slot_one_ping uzr : forall st, sl_wait st = false ->
+  slot_run st (ping_events uzr) = [if peer_answers uzr then SAnswered else SGaveUp] /\
+  sl_wait (slot_after st (ping_events uzr)) = false.
+Proof.
+  destruct uzr as [[u z] r]. intros st Hw. unfold ping_events, peer_answers.
   destruct (slot_idle_resps u st Hw) as (H1 & H2).
-  rewrite slot_run_app, H1, fold_left_app. cbn [app].
-  set (st1 := fold_left _ (repeat SResp u) st) in *.
-  cbn [slot_run fold_left slot_step fst app].
-  destruct r as [|r].
-  - cbn [slot_run fold_left slot_step sl_wait sl_chan fst app]. split; reflexivity.
-  - cbn [repeat slot_run fold_left slot_step sl_wait sl_chan fst app].
+  rewrite slot_run_app, H1, slot_after_app. cbn [app].
+  set (st1 := slot_after st (repeat SResp u)) in *.
+  change (SInstall :: SWrite :: repeat SResp z ++ SSelect :: match (z + r)%nat with O => [SGiveUp] | S _ => repeat SResp r end)
+    with ([SInstall; SWrite] ++ repeat SResp z ++ SSelect :: match (z + r)%nat with O => [SGiveUp] | S _ => repeat SResp r end).
+  rewrite slot_run_app, slot_after_app.
+  assert (E2 : slot_after st1 [SInstall; SWrite] = mk_slot (Some false) false) by reflexivity.
+  assert (R2 : slot_run st1 [SInstall; SWrite] = []) by reflexivity.
+  rewrite E2, R2. cbn [app].
+  destruct (slot_fill z (mk_slot (Some false) false) eq_refl eq_refl) as (F1 & F2).
+  rewrite slot_run_app, slot_after_app, F1, F2. cbn [app].
+  destruct z as [|z].
+  - cbn [Nat.eqb negb plus]. cbn [slot_run slot_step sl_chan sl_wait app].
+    unfold slot_after at 1. cbn [fold_left slot_step sl_chan sl_wait fst].
+    destruct r as [|r].
+    + cbn. split; reflexivity.
+    + cbn [Nat.eqb negb repeat slot_run slot_step sl_chan sl_wait app].
+      unfold slot_after. cbn [fold_left slot_step sl_chan sl_wait fst].
+      destruct (slot_idle_resps r (mk_slot (Some false) false) eq_refl) as (G1 & G2).
+      rewrite G1. split; [reflexivity | exact G2].
+  - cbn [Nat.eqb negb plus]. cbn [slot_run slot_step sl_chan sl_wait app].
+    unfold slot_after at 1. cbn [fold_left slot_step sl_chan sl_wait fst].
     destruct (slot_idle_resps r (mk_slot (Some false) false) eq_refl) as (G1 & G2).
     rewrite G1. split; [reflexivity | exact G2].
 Qed.
 
-Lemma slot_pings urs : forall st, sl_wait st = false ->
-  slot_run st (flat_map ping_events urs) = map (fun ur => match snd ur with O => SGaveUp | _ => SAnswered end) urs.
+Lemma slot_pings uzrs : forall st, sl_wait st = false ->
+  slot_run st (flat_map ping_events uzrs) = map (fun x => if peer_answers x then SAnswered else SGaveUp) uzrs.
 Proof.
-  induction urs as [|ur urs IH]; intros st Hw; cbn [flat_map map]; [reflexivity|].
-  destruct (slot_one_ping ur st Hw) as (H1 & H2).
+  induction uzrs as [|x uzrs IH]; intros st Hw; cbn [flat_map map]; [reflexivity|].
+  destruct (slot_one_ping x st Hw) as (H1 & H2).
   rewrite slot_run_app, H1. cbn [app]. f_equal. apply IH. exact H2.
 Qed.
 
-Lemma wire_outcomes_eq urs :
-  wire_outcomes urs = map (fun ur => match snd ur with O => Never | _ => Answered 0 end) urs.
+Lemma wire_outcomes_eq uzrs :
+  wire_outcomes uzrs = map (fun x => if peer_answers x then Answered 0 else Never) uzrs.
 Proof.
-  unfold wire_outcomes. rewrite (slot_pings urs slot_init eq_refl), map_map.
-  apply map_ext. intros [u [|r]]; reflexivity.
+  unfold wire_outcomes. rewrite (slot_pings uzrs slot_init eq_refl), map_map.
+  apply map_ext. intros x. destruct (peer_answers x); reflexivity.
 Qed.
+
+Lemma wire_outcomes_answered pre : Forall (fun x => peer_answers x = true) pre ->
+  wire_outcomes pre = answered (repeat 0 (length pre)).
+Proof.
+  intros H. rewrite wire_outcomes_eq.
+  induction H as [|x pre Hx Hpre IH]; cbn [map length repeat answered]; [reflexivity|].
+  fold (answered (repeat 0 (length pre))). rewrite IH, Hx. reflexivity.
+Qed.
+
+Lemma wire_outcomes_app a b : wire_outcomes (a ++ b) = wire_outcomes a ++ wire_outcomes b.
+Proof. rewrite !wire_outcomes_eq. apply map_app. Qed.
 
 (* surplus PINGRESPs (unsolicited ones between pings, duplicates of an answer) are inert: each
    ping is answered iff the peer answered THAT ping; so a peer that answered n pings (however
    many times each, with however many unsolicited PINGRESPs in between) and then stays silent is
    reported after exactly n+1 PINGREQs *)
 Theorem stale_pingresp_inert I T pre u post : 0 < I ->
-  Forall (fun ur => snd ur <> O) pre ->
-  wire_outcomes (pre ++ (u, O) :: post) = answered (repeat 0 (length pre)) ++ Never :: wire_outcomes post /\
-  ko_result (keepalive I T (wire_outcomes (pre ++ (u, O) :: post))) = KA_returned EPingTimeout /\
-  pings (keepalive I T (wire_outcomes (pre ++ (u, O) :: post))) = S (length pre).
+  Forall (fun x => peer_answers x = true) pre ->
+  wire_outcomes (pre ++ (u, O, O) :: post) = answered (repeat 0 (length pre)) ++ Never :: wire_outcomes post /\
+  ko_result (keepalive I T (wire_outcomes (pre ++ (u, O, O) :: post))) = KA_returned EPingTimeout /\
+  pings (keepalive I T (wire_outcomes (pre ++ (u, O, O) :: post))) = S (length pre).
 Proof.
   intros HI Hpre.
-  assert (E : wire_outcomes (pre ++ (u, O) :: post) = answered (repeat 0 (length pre)) ++ Never :: wire_outcomes post).
-  { rewrite !wire_outcomes_eq, map_app. cbn [map snd]. f_equal.
-    induction Hpre as [|[u' r'] pre Hr Hpre IH]; cbn [map length repeat answered]; [reflexivity|].
-    fold (answered (repeat 0 (length pre))). rewrite IH. cbn [snd] in *. destruct r'; [contradiction | reflexivity]. }
+  assert (E : wire_outcomes (pre ++ (u, O, O) :: post) = answered (repeat 0 (length pre)) ++ Never :: wire_outcomes post).
+  { rewrite wire_outcomes_app, (wire_outcomes_answered pre Hpre). f_equal.
+    change ((u, O, O) :: post) with ([(u, O, O)] ++ post). rewrite wire_outcomes_app, (wire_outcomes_eq [(u, O, O)]). reflexivity. }
   split; [exact E|]. rewrite E.
   destruct (timeout_reported I T (repeat 0 (length pre)) (wire_outcomes post) HI) as (H1 & H2).
   rewrite repeat_length in H2. split; assumption.
 Qed.
 
+(* a PINGRESP dispatched at ANY time after the PINGREQ was handed to the transport answers the
+   ping, a zero-delay one (dispatched before the Ping reaches its select) included: whatever the
+   slot held, a ping with z + r >= 1 responses is answered; so the loop keeps running through
+   any number of pings answered with zero delay *)
+Theorem zero_delay_pingresp_answers I T uzrs : 0 < I ->
+  (forall st u z r, sl_wait st = false -> (0 < z + r)%nat -> slot_run st (ping_events (u, z, r)) = [SAnswered]) /\
+  (Forall (fun x => peer_answers x = true) uzrs ->
+   ko_result (keepalive I T (wire_outcomes uzrs)) = KA_running /\
+   pings (keepalive I T (wire_outcomes uzrs)) = length uzrs).
+Proof.
+  intros HI. split.
+  - intros st u z r Hw Hzr. destruct (slot_one_ping (u, z, r) st Hw) as (H & _). rewrite H.
+    unfold peer_answers. destruct (z + r)%nat eqn:E; [lia | reflexivity].
+  - intros H. rewrite (wire_outcomes_answered uzrs H).
+    destruct (never_returns_while_answered I T (repeat 0 (length uzrs)) HI) as (H1 & H2).
+    rewrite repeat_length in H2. split; assumption.
+Qed.
+
 Example ex_duplicate_then_silent : (* ping 1 answered twice, an unsolicited PINGRESP, then silence *)
-  wire_outcomes [(O, 2%nat); (1%nat, O)] = [Answered 0; Never]
-  /\ pings (keepalive 1000 5000 (wire_outcomes [(O, 2%nat); (1%nat, O)])) = 2%nat.
+  wire_outcomes [(O, O, 2%nat); (1%nat, O, O)] = [Answered 0; Never]
+  /\ pings (keepalive 1000 5000 (wire_outcomes [(O, O, 2%nat); (1%nat, O, O)])) = 2%nat.
+Proof. vm_compute. split; reflexivity. Qed.
+
+Example ex_zero_delay : wire_outcomes [(O, 1%nat, O); (O, 1%nat, O); (O, O, O)] = [Answered 0; Answered 0; Never].
+Proof. vm_compute. reflexivity. Qed.
+
+(* what the order install-before-write excludes: were the channel installed after the write, a
+   zero-delay PINGRESP would be dropped (first ping) or parked in the previous ping's channel,
+   and the answered ping would give up *)
+Example ex_install_after_write_loses_response :
+  slot_run slot_init [SWrite; SResp; SInstall; SSelect; SGiveUp] = [SGaveUp] /\
+  slot_run (mk_slot (Some false) false) [SWrite; SResp; SInstall; SSelect; SGiveUp] = [SGaveUp].
 Proof. vm_compute. split; reflexivity. Qed.
 
 (* ---------- the model's times are lower bounds ---------- *)
